@@ -129,6 +129,25 @@ def _same_state(a, b, rtol=1e-9):
     return {k: v for k, v in a.items() if k != "coord"} == {k: v for k, v in b.items() if k != "coord"} and bool(np.allclose(ca, cb, rtol=rtol, atol=1e-9))
 
 
+def _behaves_like(new, old):
+    """equal in value also means: the same thing happens to both when they are converted to another frame (coordinates, and the covariance that follows or stays) --
+    compared to rounding (1e-9 relative), the covariance's frame exactly"""
+    for f in ("ITRF", "TOD"):
+        a, b = _snap(new.copy(frame=f)), _snap(old.copy(frame=f))
+        skip = ("type", "coord", "cov")
+        if {k: v for k, v in a.items() if k not in skip} != {k: v for k, v in b.items() if k not in skip}:
+            return False
+        if not np.allclose(np.frombuffer(a["coord"]), np.frombuffer(b["coord"]), rtol=1e-9, atol=1e-6):
+            return False
+        if (a["cov"] is None) != (b["cov"] is None):
+            return False
+        if a["cov"] is not None:
+            ca, cb = np.frombuffer(a["cov"][0]), np.frombuffer(b["cov"][0])
+            if a["cov"][1] != b["cov"][1] or not np.allclose(ca, cb, rtol=1e-7, atol=1e-9 * float(np.abs(cb).max())):
+                return False
+    return True
+
+
 def _consistent(o):
     """form / frame / values mutually consistent: converting to cartesian EME2000 gives a finite state at the same radius as before"""
     x = np.asarray(o.copy(form="cartesian", frame="EME2000"), dtype=float)
@@ -165,7 +184,7 @@ def _(c):
         try:
             if op == "copy":
                 new = tgt.copy()
-                ok_value = ok_value and _snap(new) == before[k]
+                ok_value = ok_value and _snap(new) == before[k] and _behaves_like(new, tgt)
             elif op == "copy_form":
                 new = tgt.copy(form=forms[a % len(forms)])
                 ok_value = ok_value and new.form.name == forms[a % len(forms)] and new.frame.name == tgt.frame.name
@@ -215,16 +234,16 @@ def _(c):
             elif op == "pickle":
                 new = pickle.loads(pickle.dumps(tgt))
                 sn = _snap(new)
-                ok_meta = ok_meta and sn == before[k]
+                ok_meta = ok_meta and sn == before[k] and _behaves_like(new, tgt)
             elif op == "as_orbit":
                 new = tgt.as_orbit(Kepler())
                 sn = _snap(new)
-                ok_meta = ok_meta and {x: sn[x] for x in sn if x != "type"} == {x: before[k][x] for x in before[k] if x != "type"} and sn["type"] == "Orbit"
+                ok_meta = ok_meta and {x: sn[x] for x in sn if x != "type"} == {x: before[k][x] for x in before[k] if x != "type"} and sn["type"] == "Orbit" and _behaves_like(new, tgt)
             elif op == "as_statevector":
                 if hasattr(tgt, "as_statevector"):
                     new = tgt.as_statevector()
                     sn = _snap(new)
-                    ok_meta = ok_meta and {x: sn[x] for x in sn if x != "type"} == {x: before[k][x] for x in before[k] if x != "type"} and sn["type"] == "StateVector"
+                    ok_meta = ok_meta and {x: sn[x] for x in sn if x != "type"} == {x: before[k][x] for x in before[k] if x != "type"} and sn["type"] == "StateVector" and _behaves_like(new, tgt)
             elif op == "mutate_cov":
                 if tgt._data.get("cov") is not None:
                     mutates = True
